@@ -285,7 +285,7 @@ func VP_C18_conv() {
 func vpEvalBinNum(op SyntaxKind, a, b *decimal.Big) (*decimal.Big, bool) {
 	r := NewRunner()
 	r.SetThis(map[string]interface{}{"a": a, "b": b})
-	v, err := r.resolve(context.Background(), vpBin(op, vpId("a"), vpId("b")))
+	v, err := vpExact(r, context.Background(), vpBin(op, vpId("a"), vpId("b")))
 	if err != nil {
 		return nil, false
 	}
@@ -323,7 +323,7 @@ func VP_C18_bits() {
 	case 3:
 		rn := NewRunner()
 		rn.SetThis(map[string]interface{}{"a": ba})
-		v, err := rn.resolve(context.Background(), &PrefixUnaryExpression{Operator: &TokenNode{Token: SK_Tilde}, Operand: vpId("a")})
+		v, err := vpExact(rn, context.Background(), &PrefixUnaryExpression{Operator: &TokenNode{Token: SK_Tilde}, Operand: vpId("a")})
 		r, ok := v.(*decimal.Big)
 		vpAssert("C18/bits/not-is-minus-x-minus-one", err == nil && ok && vpBigIsInt64(r, -a-1))
 	}
